@@ -357,5 +357,28 @@ theorem apply_pixelsList (s : Style) (r : Rect) (h : Guard s r) (B : Rect) (p : 
     rintro ⟨hB', _⟩
     exact hB hB'
 
+/-! ### Every write lies in the stroke area (= styled bounding box) -/
+
+theorem mem_drawCalls_lowerNative {s : Style} {r : Rect} (h : Guard s r) (B : Rect) {c : Call}
+    (hc : c ∈ drawCalls s r) {w : Pt × Color} (hw : w ∈ c.lowerNative B) :
+    (strokeArea s r).contains w.1 = true := by
+  rw [drawCalls_eq_solidCalls] at hc
+  unfold solidCalls at hc
+  obtain ⟨ac, hac, rfl⟩ := List.mem_map.mp hc
+  have hin := drawSolids_inRange h ac hac
+  simp only [Call.lowerNative, List.mem_map] at hw
+  obtain ⟨q, hq, rfl⟩ := hw
+  have hq' := (mem_pointsSpec hin).mp hq
+  have hn := h.noSat
+  rcases mem_drawSolids.mp hac with ⟨_, e⟩ | ⟨_, hm⟩
+  · rw [e] at hq'
+    exact (fillArea_within s r hn).contains hq'
+  · exact (strokeRects_within s r hn _ hm).contains hq'
+
+theorem mem_pixelsList_contains {s : Style} {r : Rect} (h : Guard s r) {w : Pt × Color}
+    (hw : w ∈ pixelsList s r) : (strokeArea s r).contains w.1 = true := by
+  obtain ⟨p, c⟩ := w
+  exact ((mem_pixelsList h).mp hw).2.1
+
 end StyledRect
 end EG
